@@ -65,7 +65,7 @@ def pred(rng, n):
 def unary(rng, n, family, full=None):
     ops = ['map', 'map', 'filter', 'filter', 'slice', 'slice', 'slice', 'batch', 'unbatch',
            'items', 'tile', 'sort', 'sort', 'split', 'shard', 'cache', 'catch', 'copy',
-           'prefetch', 'prefetch', 'shuffle', 'group']
+           'prefetch', 'prefetch', 'shuffle', 'group', 'apply']
     if family == 'fault':
         ops += ['fmap', 'fmap', 'fmap', 'catch', 'catch']
     op = rng.choice(ops)
@@ -107,6 +107,11 @@ def unary(rng, n, family, full=None):
     if op == 'group':
         return {'op': 'group', 'g': rng.choice(['mod2', 'const', 'id']),
                 'sel': rng.choice([0, 1, 2, 7])}
+    if op == 'apply':
+        ag = unary(rng, n, family, full)
+        while ag['op'] in ('apply', 'shuffle'):
+            ag = unary(rng, n, family, full)
+        return {'op': 'apply', 'lazy': rng.random() < 0.7, 'ag': ag}
     return {'op': op}
 
 
